@@ -1,6 +1,6 @@
 """C11 — no subform is silently dropped: R-LIN over every compile function, unpack exhaustiveness, slot usage."""
 CANON = True
-STRICT = {"R-LIN-ANON", "R-LIN-VAR", "R-LIN-ROLE", "R-SLOT", "UNPACK", "ARGS"}
+STRICT = {"R-LIN-ANON", "R-LIN-VAR", "R-LIN-PATH", "R-EXPR-STORE", "R-LIN-ROLE", "R-SLOT", "UNPACK", "ARGS"}
 
 import ast
 
@@ -67,6 +67,30 @@ def _consumed(load, R, func, depth=0):
     return None
 
 
+def _nnf_atoms(guards):
+    """Conjuncts (as text) of the path condition in negation normal form."""
+    from .. import canon
+
+    out = []
+
+    def add(e):
+        if isinstance(e, ast.BoolOp) and isinstance(e.op, ast.And):
+            for v in e.values:
+                add(v)
+        else:
+            out.append(" ".join(ast.unparse(e).split()))
+
+    for t, pol in guards:
+        add(t if pol else canon.neg(t))
+    return out
+
+
+def _is_position_arg(attr_node):
+    """asty.X(pos.expr ...)?  A position source is not a placement."""
+    par = getattr(attr_node, "_parent", None)
+    return isinstance(par, ast.Call) and par.args and par.args[0] is attr_node and (dotted(par.func) or "").startswith("asty.")
+
+
 def _statement_free_model(a):
     """Symbol(...) / Symbol(...).replace(...) / dotted("...") compile to a Name, Constant or attribute chain."""
     if isinstance(a, ast.Call):
@@ -82,6 +106,8 @@ def check(ctx, src):
     ctx.rule("R-LIN-ANON", "a Result obtained from compile()/_compile_branch() is never projected to .expr/.force_expr while the Result itself is thrown away, "
              "unless the compiled form is statement-free by the arm's own guard")
     ctx.rule("R-LIN-VAR", "every Result bound to a variable has a consuming use (added with +/+=, returned, its .stmts placed, passed to a consuming helper, stored in a container)")
+    ctx.rule("R-LIN-PATH", "the value of a Result variable is never placed (.expr/.force_expr) in a branch that excludes every use that places its statements, unless the path condition says it has none")
+    ctx.rule("R-EXPR-STORE", "a compile function that stores to `.expr` of a Result it got from a sub-form also clears that Result's temp_variables (as Result.__add__ would)")
     ctx.rule("R-LIN-ROLE", "no sub-form has its value placed in the output while its statements are placed nowhere")
     ctx.rule("R-SLOT", "every sub-form slot of a pattern macro is referenced by the function that compiles it")
     ctx.rule("UNPACK", "_compile_collect: a `#**` element is appended to an output list under every flag combination, or a syntax error is raised")
@@ -166,12 +192,48 @@ def check(ctx, src):
             verdicts = [_consumed(u, None, f) for u in uses]
             if any(v is True for v in verdicts):
                 ctx.ok("R-LIN-VAR", key, f"`{tgt}` has a consuming use")
+                # path sensitivity: wherever the value is placed (.expr/.force_expr read), a consuming use must run on the
+                # same paths - its path conditions are a subset of those of the value use
+                cons = [u for u, v in zip(uses, verdicts) if v is True]
+                if all(v is not None for v in verdicts):
+                    cg = [dict((id(t), pol) for t, pol in pyq.guards(u, f)) for u in cons]
+                    for u, v in zip(uses, verdicts):
+                        par = getattr(u, "_parent", None)
+                        if v is False and isinstance(par, ast.Attribute) and par.attr in ("expr", "force_expr") and not _is_position_arg(par):
+                            ug = dict((id(t), pol) for t, pol in pyq.guards(u, f))
+                            # every consuming use sits in the opposite arm of some conditional that the value use is under
+                            exclusive = all(any(k in g and g[k] != pol for k, pol in ug.items()) for g in cg)
+                            if not exclusive:
+                                ctx.ok("R-LIN-PATH", key + f"|{norm(par)}", "a consuming use can run on the same path")
+                                continue
+                            atoms = _nnf_atoms(pyq.guards(u, f))
+                            if any(a == f"not {tgt}.stmts" or (" or " in a and f"not {tgt}.stmts" in a.split(" or ")) for a in atoms):
+                                ctx.ok("R-LIN-PATH", key + f"|{norm(par)}", f"on this path `{tgt}` has no statements (path condition)")
+                                continue
+                            ctx.decide("R-LIN-PATH", key + f"|{norm(par)}", False,
+                                       f"`{norm(par)}` places the value of `{tgt}` in a branch that excludes every use that places its statements (they are in the opposite arms): the statements of that sub-form are dropped on this path",
+                                       m.rel, u.lineno, witness="put (do (setv x 1) x) in this slot and take that branch")
             elif any(v is None for v in verdicts):
                 ctx.unres("R-LIN-VAR", key, f"`{tgt}`: uses not all understood")
             else:
                 ctx.bad("R-LIN-VAR", key, f"the Result bound to `{tgt}` is only inspected (.expr/.force_expr/tests) and never placed in the output: its statements are dropped",
                         m.rel, c.lineno, witness="put (do (setv x 1) x) in this slot")
     ctx.need(n_prod >= 85, f"only {n_prod} Result-producing call sites found (99 confirmed by hand)")
+
+    # --- direct stores to Result.expr keep the operand's temp_variables: setv would then rename the operand's temporary
+    #     to the user's target and discard this expression (Result.__add__ is what normally resets them)
+    for m, q, f in targets:
+        rv = compq.result_vars(f)
+        for n in ast.walk(f):
+            if isinstance(n, ast.Assign) and len(n.targets) == 1 and isinstance(n.targets[0], ast.Attribute) and n.targets[0].attr == "expr" \
+                    and isinstance(n.targets[0].value, ast.Name) and n.targets[0].value.id in rv and not (isinstance(n.value, ast.Constant) and n.value.value is None):
+                v = n.targets[0].value.id
+                resets = [x for x in ast.walk(f) if isinstance(x, ast.Assign) and isinstance(x.targets[0], ast.Attribute) and x.targets[0].attr == "temp_variables"
+                          and isinstance(x.targets[0].value, ast.Name) and x.targets[0].value.id == v and isinstance(x.value, ast.List) and not x.value.elts and x.lineno > n.lineno]
+                ctx.decide("R-EXPR-STORE", f"{m.rel}|{q}|{norm(n)[:60]}", bool(resets),
+                           f"`{norm(n)[:70]}` replaces the expression of a Result that still carries the temp_variables of the sub-form it was compiled from, and they are never cleared: "
+                           "`(setv x <this form>)` renames that temporary to x and throws this expression (and the sub-forms compiled into it) away", m.rel, n.lineno,
+                           witness="(setv r (<form> (if c (do (g) a) b) ...)): the rest of the form is never evaluated")
 
     # --- role level: value placed but statements nowhere -----------------------------------------
     for r in comp.registry:
